@@ -789,7 +789,7 @@ func c15Enumerate(b c15Bounds, emit func(sp c15Spec) bool) {
 						if o.Callee != "" || o.Fuel {
 							usesCall = true
 						}
-						if (o.W|o.R|o.F).has(kX) || o.Generic {
+						if (o.W | o.R | o.F).has(kX) || o.Generic {
 							usesX = true
 						}
 					}
